@@ -578,7 +578,8 @@ def main():
                 wk = weak_std_calls(r, f)
                 undecided.append(f"{oid}: the body uses std iterator adaptor(s) the verifier has no usable specification for ({', '.join(wk[:4])}); failed: {errs[0]['msg']}")
                 rec["status"] = "undecided (unspecified std iterator adaptors)"
-            elif errs and uncontracted_value_closures(r, f):
+            elif errs and uncontracted_value_closures(r, f) and not any(("overflow" in e["msg"] or "divide by zero" in e["msg"] or "division by zero" in e["msg"]) for e in errs):
+                # (an arithmetic failure is definite wherever it sits — also inside such a closure: `port.map(|port| port + 1)`)
                 # a closure without a contract handed to Option::map / and_then / retain / …: its result is opaque to the verifier
                 wk = uncontracted_value_closures(r, f)
                 undecided.append(f"{oid}: the body hands a closure without a contract to {', '.join('`' + w + '`' for w in wk[:4])}, whose result the verifier cannot follow; failed: {errs[0]['msg']}")
